@@ -1,4 +1,5 @@
 import SFV.Proofs.TdmReshape
+import SFV.Proofs.TdmNames
 
 /-!
 # C13 — a time-domain program means its explicit loop, however it is unrolled
@@ -29,6 +30,16 @@ theorem unroll_flat_loop (cfg : Cfg) (rolled : List TCmd) (shots : Nat) (q : Lis
       (List.range shots).flatMap fun s => (List.range cfg.timebins).flatMap fun i =>
         binCmds cfg rolled (regAt cfg false (s * cfg.timebins + i) q) i :=
   shotsLoop_shift cfg rolled shots q
+
+/-- **a loop variable means the array of its index, whatever its name looks like.**  `apply_op` resolves a
+symbolic argument through the *name* of its symbol in `parameters = dict(zip(names, arrays))`, the `i`-th
+name being `"p" + str(i)`; for every number of arrays (`p10`, `p11`, … next to `p1`) this is the `i`-th
+array, i.e. the model's index-based `resolve` used in all theorems above and below. -/
+theorem loop_variable_by_name (cfg : Cfg) (t i : Nat) (h : i < cfg.params.length) :
+    lookupName (parametersDict cfg) (SFV.Io.pName i) = some (cfg.params.getD i []) ∧
+    resolveNamed cfg t (SFV.Io.pName i) = some ((cfg.params.getD i []).getD (t % cfg.timebins) 0) ∧
+    resolve cfg t (.var i) = .const ((resolveNamed cfg t (SFV.Io.pName i)).getD 0) :=
+  ⟨lookupName_pName cfg i h, (resolve_eq_named cfg t i h).1, (resolve_eq_named cfg t i h).2⟩
 
 /-- **slot × time ↦ subsystem is a bijection at every time**, for every shift (default band-wise
 rotation, any integer, none) and in the space variant: the register at bin `g` is a rearrangement of
@@ -200,6 +211,41 @@ theorem run_samples_correct (cfg : Cfg) (rolled circ : List TCmd) (S : Nat)
   exact reshapeWith_correct _ _ _ _ S _ _ hm hl hn0 hT hS
     (run_reads_in_order rolled circ S cfg.timebins hn0 hlen hn)
 
+/-- **samples of the shift-unrolled run, no side condition left**: for every shift kind, every
+duplicate-free register `q`, every number of shots, and every loop body whose `n = #bands` measurement
+commands act on pairwise distinct slots of the register, running `unroll(S)` returns under the `b`-th
+measured mode the array `[s][t] ↦` outcome of that band's measurement in time bin `s·T + t`. -/
+theorem run_samples_shift_unrolled (cfg : Cfg) (rolled : List TCmd) (S : Nat) (q : List Nat) (hq : q.Nodup)
+    (hne : ∀ c ∈ rolled, c.meas = true → c.regs ≠ []) (hslots : (measuredRegs rolled).Nodup)
+    (hlt : ∀ j ∈ measuredRegs rolled, j < q.length)
+    (hB : cfg.N.length = (measuredRegs rolled).length) (hn0 : 0 < (measuredRegs rolled).length)
+    (hT : 0 < cfg.timebins) (hS : 0 < S)
+    (hm : (measuredModes rolled).Nodup) (hl : (measuredModes rolled).length = (measuredRegs rolled).length) :
+    runSamples cfg rolled (unrollProgram cfg false rolled S q) none =
+      (List.range (measuredRegs rolled).length).map fun b => ((measuredModes rolled).getD b 0,
+        (List.range S).map fun s => (List.range cfg.timebins).map fun t =>
+          (((s * cfg.timebins + t) * (measuredRegs rolled).length +
+            (rankOf (measuredRegs rolled)).getD b 0 : Nat) : Int)) :=
+  run_samples_correct cfg rolled _ S hB hn0 hT hS hm hl
+    (shift_side_conditions cfg rolled S q hq hne hslots hlt).1
+    (shift_side_conditions cfg rolled S q hq hne hslots hlt).2
+
+/-- **samples of the space-unrolled run**, on the register `space_unroll(S)` allocates (`L ≥ S·T + C − 1`) -/
+theorem run_samples_space_unrolled (cfg : Cfg) (rolled : List TCmd) (S C L : Nat)
+    (hc : ∀ c ∈ rolled, ∀ j ∈ c.regs, j < C) (hL : S * cfg.timebins + C ≤ L + 1)
+    (hne : ∀ c ∈ rolled, c.meas = true → c.regs ≠ []) (hslots : (measuredRegs rolled).Nodup)
+    (hB : cfg.N.length = (measuredRegs rolled).length) (hn0 : 0 < (measuredRegs rolled).length)
+    (hT : 0 < cfg.timebins) (hS : 0 < S)
+    (hm : (measuredModes rolled).Nodup) (hl : (measuredModes rolled).length = (measuredRegs rolled).length) :
+    runSamples cfg rolled (unrollProgram cfg true rolled S (List.range L)) none =
+      (List.range (measuredRegs rolled).length).map fun b => ((measuredModes rolled).getD b 0,
+        (List.range S).map fun s => (List.range cfg.timebins).map fun t =>
+          (((s * cfg.timebins + t) * (measuredRegs rolled).length +
+            (rankOf (measuredRegs rolled)).getD b 0 : Nat) : Int)) :=
+  run_samples_correct cfg rolled _ S hB hn0 hT hS hm hl
+    (space_side_conditions cfg rolled S C L hc hL hne hslots).1
+    (space_side_conditions cfg rolled S C L hc hL hne hslots).2
+
 /-- **crop/delay consistency.**  For all beamsplitter argument lists and loop delays, the crop value
 that `vacuum_padding` announces for the un-padded arguments is the crop value `get_crop_value` computes
 from the program built with the padded arguments (prologue and epilogue zeros included; an all-zero
@@ -244,6 +290,22 @@ theorem reshape_space_unrolled_instance :
   decide
 
 /-! ## non-vacuity -/
+
+example : [0, 1, 2].Nodup ∧ (∀ c ∈ exProg, c.meas = true → c.regs ≠ []) ∧ (measuredRegs exProg).Nodup ∧
+    (∀ j ∈ measuredRegs exProg, j < [0, 1, 2].length) ∧ exCfg.N.length = (measuredRegs exProg).length ∧
+    (measuredModes exProg).Nodup ∧ (measuredModes exProg).length = (measuredRegs exProg).length ∧
+    runSamples exCfg exProg (unrollProgram exCfg false exProg 2 [0, 1, 2]) none =
+      [(0, [[1, 3, 5], [7, 9, 11]]), (1, [[0, 2, 4], [6, 8, 10]])] := by decide
+
+/-- twelve arrays: the loop variables `p1`, `p10`, `p11` denote three different arrays -/
+def exCfg12 : Cfg :=
+  { N := [2], timebins := 2, params := (List.range 12).map fun (i : Nat) => [((10 * i : Nat) : Int), ((10 * i + 1 : Nat) : Int)] }
+example : (11 : Nat) < exCfg12.params.length ∧
+    resolve exCfg12 3 (.var 1) = .const 11 ∧ resolve exCfg12 3 (.var 10) = .const 101 ∧
+    resolve exCfg12 3 (.var 11) = .const 111 := by decide
+example : resolveNamed exCfg12 3 (SFV.Io.pName 11) = some 111 ∧ resolveNamed exCfg12 3 (SFV.Io.pName 1) = some 11 :=
+  ⟨(loop_variable_by_name exCfg12 3 11 (by decide)).2.1.trans (by decide),
+   (loop_variable_by_name exCfg12 3 1 (by decide)).2.1.trans (by decide)⟩
 
 /-- the hypotheses of `reshape_correct` / `run_samples_correct` hold for a real unrolled circuit:
 two bands measured in the order (band 1, band 0), two shots, three bins -/
